@@ -13,6 +13,11 @@ A second adversary chooses the ADDRESS of every allocation: an object graph (`RO
 an address at every node and "nothing observable depends on memory addresses" is
 `route o = route o'` for all graphs `o`, `o'` that are equal up to addresses
 (`render_address_independent`, for every rendering route of the code and every object type).
+
+Three defects found by this check were repaired in /repo and the model follows the repaired code:
+`VirtualOS.Environ` and `MockFS.ReadDir` sort their listing (`environ_perm_invariant`,
+`readDir_perm_invariant`), the `error()` builtin formats through `PrintableValue` (covered by
+`render_address_independent`); the pre-fix behaviours are kept as `C05_fixed_…` statements.
 -/
 namespace Risor.C05
 
@@ -162,13 +167,99 @@ theorem apply_overrides_counterexample :
     applyOverrides [("sqrt", none), ("abs", some 777)] (AMap.empty : AMap Nat) "abs" = none := by
   constructor <;> rfl
 
-/-- **result lists the entries in visiting order** (`VirtualOS.Environ`, `MockFS.ReadDir`,
-    `ast.Map.String`, the emission loop of `compileMap`): two visiting orders of a map with
-    two different entries give two different results -/
+/-- **result lists the entries in visiting order** (`ast.Map.String`, the emission loop of
+    `compileMap`; before their repair also `VirtualOS.Environ` and `MockFS.ReadDir`): two
+    visiting orders of a map with two different entries give two different results -/
 theorem visiting_order_counterexample :
     ∃ vis₁ vis₂ : List String, vis₁.Perm vis₂ ∧
       inVisitingOrder id vis₁ ≠ inVisitingOrder id vis₂ :=
   ⟨["A=1", "B=2"], ["B=2", "A=1"], List.Perm.swap _ _ _, by decide⟩
+
+/-! ## the two listings repaired in /repo: `VirtualOS.Environ` and `MockFS.ReadDir` -/
+
+/-- **`VirtualOS.Environ`** (`os.environ()` under a virtual OS), as repaired: for EVERY
+    environment (any number of variables, any names and values) and every two visiting orders
+    of the env map the returned listing is the same. -/
+theorem environ_perm_invariant {vis₁ vis₂ : List (String × String)} (h : vis₁.Perm vis₂) :
+    environ vis₁ = environ vis₂ := by
+  unfold environ inVisitingOrder
+  exact sortedKeys_perm_invariant (h.map envLine)
+
+/-- the listing is sorted and consists of exactly the `KEY=value` lines of the map (so the
+    previous theorem is not vacuous: this is what `sort.Strings` returns) -/
+theorem environ_sorted_perm (vis : List (String × String)) :
+    (environ vis).Pairwise (fun a b => a ≤ b) ∧ (environ vis).Perm (vis.map envLine) :=
+  sortedKeys_sorted_perm _
+
+/-- BEFORE the repair ("fix: return the environment of a virtual OS in sorted order"; finding
+    C05-virtualos-environ-order) the listing followed the visiting order: two orders of
+    `{A: 1, B: 2}`, two different listings -/
+theorem C05_fixed_environ_was_visiting_order :
+    ∃ vis₁ vis₂ : List (String × String), vis₁.Perm vis₂ ∧ environPreFix vis₁ ≠ environPreFix vis₂ ∧
+      environ vis₁ = environ vis₂ :=
+  ⟨[("A", "1"), ("B", "2")], [("B", "2"), ("A", "1")], List.Perm.swap _ _ _, by decide, by decide⟩
+
+/-- the sort is over the whole `KEY=value` line, as the code does it (`V10=x` before `V1=x`) -/
+example : environ [("V1", "x"), ("B", ""), ("V10", "x")] = ["B=", "V10=x", "V1=x"] := by decide
+
+/-- **`MockFS.ReadDir`**, as repaired: for EVERY mock filesystem content (entries = (path,
+    filename, info), the paths pairwise distinct because they are the keys of one Go map; any
+    number of entries, filenames may repeat) and every two visiting orders of the `fileInfos`
+    map, the returned listing — filenames AND the file infos attached to them — is the same. -/
+theorem readDir_perm_invariant {vis₁ vis₂ : List (String × String × I)} (h : vis₁.Perm vis₂)
+    (hd : KeysDistinct vis₁) : readDir vis₁ = readDir vis₂ := by
+  unfold readDir
+  congr 1
+  refine isort_unique_on _ (fun a b c => entLe_trans (a.2.1, a.1) (b.2.1, b.1) (c.2.1, c.1))
+    (fun a b => entLe_total (a.2.1, a.1) (b.2.1, b.1)) h ?_
+  intro a ha b hb h1 h2
+  have := entLe_antisymm (a.2.1, a.1) (b.2.1, b.1) h1 h2
+  exact eq_of_key_eq hd a ha b hb (by simpa using congrArg Prod.snd this)
+
+/-- the listing is sorted by filename (what `os.ReadDir` promises) and consists of exactly
+    the visited entries -/
+theorem readDir_sorted_by_name (vis : List (String × String × I)) :
+    (readDir vis).Pairwise (fun a b => a.1 ≤ b.1) ∧
+      (readDir vis).Perm (vis.map fun e => (e.2.1, e.2.2)) := by
+  unfold readDir
+  constructor
+  · have hs := isort_sorted (fun (a b : String × String × I) => entLe (a.2.1, a.1) (b.2.1, b.1))
+      (fun a b c => entLe_trans (a.2.1, a.1) (b.2.1, b.1) (c.2.1, c.1))
+      (fun a b => entLe_total (a.2.1, a.1) (b.2.1, b.1)) vis
+    rw [List.pairwise_map]
+    refine hs.imp ?_
+    intro a b hab
+    unfold entLe at hab
+    simp only at hab
+    split at hab
+    · exact Std.le_of_lt (by simpa using hab)
+    · rename_i hne
+      have : a.2.1 = b.2.1 := by simpa using hne
+      rw [this]
+      exact String.le_refl _
+  · exact (isort_perm _ vis).map _
+
+/-- BEFORE the repair ("fix: return the entries of a MockFS directory sorted by filename";
+    finding C05-mockfs-readdir-order) the listing followed the visiting order -/
+theorem C05_fixed_readdir_was_visiting_order :
+    ∃ vis₁ vis₂ : List (String × String × Nat), vis₁.Perm vis₂ ∧ KeysDistinct vis₁ ∧
+      readDirPreFix vis₁ ≠ readDirPreFix vis₂ ∧ readDir vis₁ = readDir vis₂ :=
+  ⟨[("/d/a", "a", 1), ("/d/b", "b", 2)], [("/d/b", "b", 2), ("/d/a", "a", 1)], List.Perm.swap _ _ _,
+    by simp [KeysDistinct], by decide, by decide⟩
+
+/-- non-vacuity: a directory listing with a repeated filename (the listing of `/`, which
+    includes all descendants): by filename, then by path -/
+example : readDir [("/d/f2", "f2", 0), ("/e/f1", "f1", 1), ("/d/f1", "f1", 2)]
+    = [("f1", 2), ("f1", 1), ("f2", 0)] := by decide
+
+/-- the reviewed table follows the repair: the two sites were classified "visiting order"
+    (findings) with no sort call after the loop, and are "sorted afterwards" with a sort call now -/
+theorem C05_fixed_sites_were_unsorted :
+    preFixSites.all (fun s => !s.2.2.2.1 && (mapSites.any fun t =>
+      t.1 == s.1 && t.2.1 == s.2.1 && t.2.2.1 == s.2.2.1 && t.2.2.2.1 && t.2.2.2.2 == SiteClass.sortedAfter)
+      && (s.2.2.2.2 == SiteClass.visitingOrder "C05-mockfs-readdir-order"
+          || s.2.2.2.2 == SiteClass.visitingOrder "C05-virtualos-environ-order")) = true := by
+  decide
 
 /-! ## `Set.SortedItems`, `sorted()`, the import cache -/
 
@@ -446,8 +537,8 @@ theorem compileMap_visits_each_entry_once (perm : List Nat) (es : Entries) :
 /-! ## rendering: the address of an allocation as a second adversary
 
 An object graph is rendered through `Inspect()`, `PrintableValue` + a fmt verb (print, printf,
-sprintf, errorf, fmt.*, errors.new), `builtins.String`, string interpolation, or — by the
-`error()` builtin — through `Interface()`.  Every node carries the address the adversary chose
+sprintf, errorf, fmt.*, errors.new, and — since its repair — the `error()` builtin),
+`builtins.String` or string interpolation.  Every node carries the address the adversary chose
 for its allocation; two graphs with the same `eraseAddr` are the same script value living at
 different places in memory (another run, another process, another repetition). -/
 
@@ -522,22 +613,28 @@ theorem interp_erase (o : RObj) (h : o.cellsOk = true) : o.eraseAddr.interp = o.
   unfold RObj.interp
   rw [RObj.eraseAddr_kind, RObj.eraseAddr_raw, inspect_erase o h]
 
-/-- the four address-free rendering routes of the code, as one record -/
-def routes (o : RObj) : String × String × String × String :=
-  (o.inspect, o.printable, o.stringBuiltin, o.interp)
+theorem errorFmt_erase (o : RObj) (h : o.cellsOk = true) : o.eraseAddr.errorFmt = o.errorFmt :=
+  printable_erase o h
+
+/-- the five rendering routes of the code, as one record -/
+def routes (o : RObj) : String × String × String × String × String :=
+  (o.inspect, o.printable, o.stringBuiltin, o.interp, o.errorFmt)
 
 /-- **`render_address_independent`** — for ALL object graphs (every kind of the inventory at
     every node, any depth, any fan-out) and ALL pairs of address assignments (`o`, `o'` are the
     same graph up to addresses), the text produced by `Inspect()` (evaluation result, items
     inside lists/maps/sets/entries/partials/threads/iterators), by `PrintableValue` + `%v`
-    (print, printf, sprintf, errorf, fmt.*, errors.new), by `string(x)` and by string
-    interpolation is identical.  Guard `cellsOk`: a cell holds an object with a `String()`
+    (print, printf, sprintf, errorf, fmt.*, errors.new), by `string(x)`, by string
+    interpolation and by the `error(fmt, args…)` builtin / `builtins.Sprintf` (since their repair
+    in /repo: no guard on the kinds of objects any more) is identical.  Guard `cellsOk`: a cell holds an object with a `String()`
     method (`Cell.String` uses `%s`); cells are never script values (`…_script_values`). -/
 theorem render_address_independent (o o' : RObj) (h : o.eraseAddr = o'.eraseAddr)
     (hc : o.cellsOk = true) (hc' : o'.cellsOk = true) : routes o = routes o' := by
   unfold routes
   rw [← inspect_erase o hc, ← printable_erase o hc, ← stringBuiltin_erase o hc, ← interp_erase o hc,
-    ← inspect_erase o' hc', ← printable_erase o' hc', ← stringBuiltin_erase o' hc', ← interp_erase o' hc', h]
+    ← errorFmt_erase o hc,
+    ← inspect_erase o' hc', ← printable_erase o' hc', ← stringBuiltin_erase o' hc', ← interp_erase o' hc',
+    ← errorFmt_erase o' hc', h]
 
 mutual
   theorem cellFree_cellsOk : ∀ o : RObj, o.cellFree = true → o.cellsOk = true
@@ -591,17 +688,42 @@ theorem no_fallback_differs_iff_no_string :
         == !(hasString k)) = true := by
   decide
 
-/-- the `error(fmt, args…)` builtin, full statement: the message does not depend on addresses -/
-def errorFormat_full : Prop :=
+/-! ### the `error()` builtin: repaired; the pre-fix route kept as checked statements -/
+
+/-- **the `error(fmt, args…)` builtin (and `builtins.Sprintf`), as repaired**: for every value a
+    script can get hold of — channels, builtins, files, partials, proxies included — and all
+    address assignments the message is the same (a corollary of
+    `render_address_independent_script_values`; no `noRawAddr` guard) -/
+theorem error_format_address_independent (o o' : RObj) (h : o.eraseAddr = o'.eraseAddr)
+    (hc : o.cellFree = true) (hc' : o'.cellFree = true) : o.errorFmt = o'.errorFmt := by
+  have := render_address_independent_script_values o o' h hc hc'
+  unfold routes at this
+  exact (Prod.mk.inj (Prod.mk.inj (Prod.mk.inj (Prod.mk.inj this).2).2).2).2
+
+/-- `error("E %v", chan(2))` now renders the channel as every other route does -/
+example : (chanAt 1).errorFmt = "chan(2)" ∧ (chanAt 2).errorFmt = "chan(2)" := by decide
+
+/-- BEFORE the repair ("fix: format the arguments of error() and the sprintf builtin with
+    PrintableValue"; finding C05-error-format-raw-go-value) the route was `Interface()` + `%v`
+    (`ifaceV`); its full statement: the message does not depend on addresses -/
+def errorFormat_preFix_full : Prop :=
   ∀ o o' : RObj, o.eraseAddr = o'.eraseAddr → ifaceV o = ifaceV o'
 
-/-- **false on the unchanged code**: `error("%v", chan(2))` — `Chan.Interface()` is the Go
-    channel and `%v` prints its address -/
-theorem error_format_counterexample_chan : ¬ errorFormat_full := by
+/-- **it was false**: `error("%v", chan(2))` — `Chan.Interface()` is the Go channel and `%v`
+    prints its address -/
+theorem C05_fixed_error_format_was_address_dependent : ¬ errorFormat_preFix_full := by
   intro h
   have := h (chanAt 1) (chanAt 2) rfl
   revert this
   decide
+
+/-- the format sites as they were: both rows handed `Interface()` to fmt; both hand
+    `PrintableValue` now -/
+theorem C05_fixed_format_sites_were_interface :
+    preFixFormatSites.all (fun s => s.2 == "Interface" &&
+      formatSitesReviewed.contains (s.1, "PrintableValue")) = true
+    ∧ formatSitesReviewed.all (fun s => s.2 == "PrintableValue") = true := by
+  constructor <;> decide
 
 mutual
   theorem ifaceV_erase : ∀ o : RObj, o.noRawAddr = true → ifaceV o.eraseAddr = ifaceV o
@@ -618,10 +740,10 @@ mutual
       simp only [RObjs.eraseAddr, ifaceAll, ifaceV_erase o h.1, ifaceAll_erase r h.2]
 end
 
-/-- **`error_format_partial`**: for all graphs without an object whose `Interface()` is a Go
-    pointer, channel or func (guard `noRawAddr`: no channel, builtin, file, partial, proxy,
-    Go reflection wrapper anywhere) and all address assignments, the message is the same -/
-theorem error_format_partial (o o' : RObj) (h : o.eraseAddr = o'.eraseAddr)
+/-- (historical) what could be proved of the pre-fix route: for all graphs without an object
+    whose `Interface()` is a Go pointer, channel or func (guard `noRawAddr`) and all address
+    assignments, the message was the same — the guard the repair made unnecessary -/
+theorem error_format_preFix_partial (o o' : RObj) (h : o.eraseAddr = o'.eraseAddr)
     (hn : o.noRawAddr = true) (hn' : o'.noRawAddr = true) : ifaceV o = ifaceV o' := by
   rw [← ifaceV_erase o hn, ← ifaceV_erase o' hn', h]
 
@@ -641,7 +763,11 @@ example : (sampleGraph 1 2 3 4).eraseAddr = (sampleGraph 50 60 70 80).eraseAddr 
     (sampleGraph 1 2 3 4).printable = (sampleGraph 1 2 3 4).inspect :=
   ⟨rfl, by decide, by decide, by decide⟩
 
-/-- the guards really exclude something / are satisfiable -/
+/-- the sample graph — channel, builtin and partial included — through the repaired `error()` route -/
+example : (sampleGraph 1 2 3 4).errorFmt = (sampleGraph 50 60 70 80).errorFmt ∧
+    (sampleGraph 1 2 3 4).errorFmt = (sampleGraph 1 2 3 4).inspect := ⟨by decide, by decide⟩
+
+/-- the historical guard really excluded something / was satisfiable -/
 example : (sampleGraph 1 2 3 4).noRawAddr = false ∧
     (RObj.mk .List 9 "" "" "" (.cons (.mk .Function 3 "func() { }" "func() { ... }" "" .nil) .nil)).noRawAddr = true ∧
     ifaceV (RObj.mk .List 9 "" "" "" (.cons (.mk .Function 3 "func() { }" "func() { ... }" "" .nil) .nil)) = "[<nil>]" := by
